@@ -200,6 +200,11 @@ func (this *DefaultOutputBitStream) WriteArray(bits []byte, count uint) uint {
 
 // Push 64 bits into buffer.
 func (this *DefaultOutputBitStream) push(val uint64) {
+	if this.closed {
+		// Refuse before touching the buffer: a rejected write must leave Written() unchanged
+		panic(errors.New("Stream closed"))
+	}
+
 	binary.BigEndian.PutUint64(this.buffer[this.position:this.position+8], val)
 	this.position += 8
 
